@@ -8,7 +8,7 @@
 
 using namespace phosg;
 
-VF_SECTION(concurrent_pairs, 16, 16, 300) {
+static std::vector<pp::Call> make_calls() {
   static const char* URLSAFE = "ABCDEFGHIJKLMNOPQRSTUVWXYZabcdefghijklmnopqrstuvwxyz0123456789-_";
   std::vector<pp::Call> calls;
   auto add = [&](const char* name, const char* group, std::function<std::string()> f) { calls.push_back({name, group, pp::guarded(f)}); };
@@ -27,7 +27,19 @@ VF_SECTION(concurrent_pairs, 16, 16, 300) {
   add("render_netloc(\"\", 65535)", "render_netloc", [] { return render_netloc("", 65535); });
   add("parse_netloc(\"a.b:443\")", "parse_netloc", [] { auto p = parse_netloc("a.b:443"); return p.first + "|" + std::to_string(p.second); });
   add("parse_netloc(\"nohost\", 7)", "parse_netloc", [] { auto p = parse_netloc("nohost", 7); return p.first + "|" + std::to_string(p.second); });
+  return calls;
+}
+
+VF_SECTION(concurrent_pairs, 16, 16, 300) {
+  std::vector<pp::Call> calls = make_calls();
   pp::run_pairs(r, calls, r.thorough() ? 400 : 150, r.thorough() ? 150 : 0);
   r.bound = "every unordered pair (and every call with itself) of 15 base64 (both alphabets, accepted and rejected) / rot13 / escape_* / netloc calls run concurrently: every schedule with <= 2 preemptions for same-function pairs with <= 150 (thorough 400) scheduling points per call (thorough: cross pairs <= 150 too), <= 1 preemption otherwise; basic-block granularity of Encoding.cc, Strings.cc, Network.cc";
+}
+
+// First calls: every same-function pair (thorough: every pair) with each schedule in a freshly forked process.
+VF_SECTION(concurrent_cold, 16, 16, 600) {
+  std::vector<pp::Call> calls = make_calls();
+  pp::run_pairs_cold(r, calls, r.thorough());
+  r.bound = "first calls: every same-function pair of the calls above and every call with itself (thorough: every pair), each schedule in a freshly forked process that has never called the library: every schedule with <= 1 preemption at basic-block granularity";
 }
 VF_MAIN()
